@@ -57,6 +57,19 @@ HEADERS = {
 ROOTS = {1: [[5], [-5], [-1], [1]], 2: [[5, -4], [-5, 5], [-5, -1], [1, 4]]}
 
 
+def warm_variant(text):
+    """another DDDMP text of the same length (the order lines reversed): written to the same path
+    and loaded *before* the file under test, so that anything `load` remembers about a path
+    (and not about the file's contents) shows"""
+    out = []
+    for l in text.splitlines(True):
+        if l.startswith('.permids ') or l.startswith('.orderedvarnames '):
+            toks = l.rstrip('\n').split(' ')
+            l = ' '.join([toks[0]] + toks[1:][::-1]) + '\n'
+        out.append(l)
+    return ''.join(out)
+
+
 def header_text(h, nnodes, roots):
     H = HEADERS[h]
     return HEAD.format(varinfo=H['varinfo'], nnodes=nnodes, nvars=H['nvars'], names=H['names'],
@@ -140,9 +153,36 @@ class Harness:
 
         d = tempfile.mkdtemp(prefix='symdd_dddmp')
         fn = os.path.join(d, 'f.dddmp')
-        with open(fn, 'w') as f:
-            f.write(header_text(h, M + 1, roots) + '.end\n')
         D = self.D
+        text = header_text(h, M + 1, roots) + '.end\n'
+        import os as _os
+        if M <= 3 and not _os.environ.get('NOWARM'):
+            # an earlier load of another file at the same path
+            def warm_body(pself, filename):
+                pself._add_node(1, 'T', 1, 0, 0)
+                for j in range(M):
+                    pself._add_node(5 - j, infos_avail[j % len(infos_avail)], 0, 1, -1)
+            with open(fn, 'w') as f:
+                f.write(warm_variant(text))
+            D.Parser._parse_body = warm_body
+            # everything in this load is concrete: it runs in a throw-away context (first branch of
+            # every choice; iteration orders of the lifted sets need not be explored here)
+            engine.CTX = engine.Ctx()
+            BDDc = D._bdd.BDD
+            orig_del = BDDc.__dict__.get('__del__')
+            BDDc.__del__ = lambda s: None      # its shutdown check must not run later, inside the path proper
+            try:
+                wb = D.load(fn)
+                wb.roots = set()
+                del wb
+            except Exception:
+                pass
+            finally:
+                if orig_del is not None:
+                    BDDc.__del__ = orig_del
+                engine.CTX = c
+        with open(fn, 'w') as f:
+            f.write(text)
 
         def body(pself, filename):
             pself._add_node(1, 'T', 1, 0, 0)
@@ -158,7 +198,7 @@ class Harness:
             shutil.rmtree(d, ignore_errors=True)
         if exc is not None:
             res = base.discharge([Goal('well_formed_file_loads', z3.BoolVal(False))], [], extract)
-            return dict(outcome='raised:' + type(exc).__name__, goals=res)
+            return dict(outcome='raised:' + type(exc).__name__ + ':' + str(exc)[:200], goals=res)
         # the new manager is concrete on this path (find_or_add returned concrete numbers)
         succ = {}
         for k, t in bdd._succ.items():
@@ -239,6 +279,14 @@ def replay(case):
     fn = os.path.join(d, 'f.dddmp')
     obs = dict(outcome='returned')
     try:
+        if len(case['rows']) <= 3:
+            with open(fn, 'w') as f:
+                f.write(warm_variant(file_text(case)))
+            try:
+                wb = D.load(fn)
+                wb.roots = set()
+            except Exception:
+                pass
         with open(fn, 'w') as f:
             f.write(file_text(case))
         try:
